@@ -74,20 +74,28 @@ def sensitivity(argv):
     ap.add_argument("--only")
     ap.add_argument("--mutant")
     ap.add_argument("--with-tests", action="store_true")
+    ap.add_argument("--seeded", action="store_true", help="also run the sub-agent changes under /verif/seeded")
+    ap.add_argument("--seeded-only", action="store_true")
     ap.add_argument("--tier", default="quick")
     ap.add_argument("--jobs", type=int, default=None)
     a = ap.parse_args(argv)
     results = []
     failed = 0
-    for fn in sorted(os.listdir(MUTANT_DIR)):
-        if not fn.endswith(".patch"):
-            continue
-        name = fn[:-6]
-        path = os.path.join(MUTANT_DIR, fn)
-        meta = read_patch_meta(path)
+    items = []
+    if not a.seeded_only:
+        for fn in sorted(os.listdir(MUTANT_DIR)):
+            if fn.endswith(".patch"):
+                items.append((fn[:-6], os.path.join(MUTANT_DIR, fn), read_patch_meta(os.path.join(MUTANT_DIR, fn))))
+    if a.seeded or a.seeded_only:
+        sd = os.path.join(common.VERIF_DIR, "seeded")
+        for sid in sorted(os.listdir(sd)):
+            mp = os.path.join(sd, sid, "meta.json")
+            if os.path.exists(mp):
+                items.append(("seeded/" + sid, os.path.join(sd, sid, "patch.diff"), {"property": json.load(open(mp))["breaks_property"]}))
+    for name, path, meta in items:
         if a.mutant and a.mutant not in name:
             continue
-        neutral = name.startswith("neutral_")
+        neutral = os.path.basename(name).startswith("neutral_")
         # a neutral patch must leave EVERY check green; a mutant is run against its own property
         props = ["C09", "C05", "C15"] if neutral else [meta.get("property")]
         for prop in props:
